@@ -193,12 +193,16 @@ fn parse_list(s: &str) -> Vec<String> {
     if inner.is_empty() { vec![] } else { inner.split(',').map(|x| x.to_string()).collect() }
 }
 
-fn gen_op(r: &mut Rng, opened: bool) -> String {
+fn gen_op(r: &mut Rng, opened: bool, focus: &str) -> String {
     if !opened {
         return format!("open {}", if r.chance(4, 5) { KEYS[0] } else { r.pick(KEYS) });
     }
-    let p = *r.pick(PATHS);
-    match r.below(22) {
+    // most operations of a sequence hit one "focus" path, so that multi-step combinations on
+    // ONE entry (put+setdiag+inval+save, keep after key change, …) are frequent
+    let p = if r.chance(3, 5) { focus } else { *r.pick(PATHS) };
+    match r.below(26) {
+        22..=23 => format!("inval {p}"),
+        24..=25 => format!("setdiag {p} {}", r.pick(PAYLOADS)),
         0..=4 => {
             let b = if r.chance(1, 4) { "-" } else { r.pick(PAYLOADS) };
             format!("put {p} {} {b}", r.pick(HASHES))
@@ -242,8 +246,9 @@ pub fn gen_seq(r: &mut Rng, max_len: u64) -> Vec<String> {
     let mut ops = vec![];
     let mut opened = false;
     let rescan = r.chance(1, 3);
+    let focus = *r.pick(PATHS);
     for _ in 0..len {
-        let op = gen_op(r, opened);
+        let op = gen_op(r, opened, focus);
         if op.starts_with("open") {
             opened = true;
         }
